@@ -752,7 +752,7 @@ func replayViolation(runner *sym.NativeRunner, prog *sym.Program, v *sym.Violati
 		to = 20 * time.Second // the native run is expected to hang: go test's own deadline is the oracle
 	}
 	sched := 0
-	if v.Threads && v.Kind == "assert" {
+	if v.Threads && (v.Kind == "assert" || v.Kind == "panic") {
 		// schedule-dependent assertion: search seeded schedules under the cooperative native scheduler
 		sched = 2000
 	}
